@@ -15,13 +15,25 @@ RULE = ("BQMs (float64/float32/object dtype, object models with Python float or 
         "to/from_serializable x use_bytes x pack_samples x JSON text, plus DimodEncoder/DimodDecoder, pickle 2-5, deepcopy, copy, .copy(): every "
         "field compared exactly by the worker, sample rows and the emitted sample_data (packed uint32 words or raw rows) compared with the Coq "
         "model; Variables.to_serializable on mixed labels incl. NumPy scalars; serialize_ndarray on float64/32/16 arrays of rank 1-3 incl. "
-        "empty axes. non-trivial = object has at least one variable/row/element; distinct by case JSON")
+        "empty axes. Round 4: DEFERRED sample sets (SampleSet.from_future: plain future, future with wait_id, lambda result hook, result set "
+        "late, hooks installed on a not-yet-done set by relabel_variables in place / copy, change_vartype, a deferred set inside a deferred "
+        "set) handed untouched or after use to every route and to to_serializable; bytes_type=bytearray for BQMs and sample sets, the "
+        "deprecated bias_dtype keyword; the .spin/.binary vartype VIEWS of BQMs through to_serializable (pure-Python to_numpy_vectors), "
+        "deepcopy and .copy(); exact range labels for BQMs; NumPy scalars (float64/32/16, int64/8, uint16, non-dyadic float64) inside info; "
+        "a sample set nested inside other JSON data through DimodEncoder/DimodDecoder; the other model classes (QuadraticModel, "
+        "ConstrainedQuadraticModel incl. soft and discrete constraints, DiscreteQuadraticModel, BinaryPolynomial, Variables) through the "
+        "copy/pickle routes each class offers, compared field by field by the worker incl. independence of the copy (6% of the cases). "
+        "non-trivial = object has at least one variable/row/element; distinct by case JSON")
 TRUSTED = ["model: coq/theories/Model/{Comb,Ser,Poly,ChkC11}.v (hand written mirror of sampleset.py to/from_serializable, "
            "serialization/utils.py, variables.py serialize_variable/deserialize_variable)",
            "Python json / pickle / copy modules and NumPy tolist/frombuffer are oracles (float printing, tuple->list)",
            "energies, num_occurrences and extra vectors are compared by the worker in Python (exact ==, dtype and shape), not in Coq; the info tree "
-           "(before, emitted document, after) is decided by the Coq walk of Model/InfoSer.v, with arrays numbered by the worker"]
+           "(before, emitted document, after) is decided by the Coq walk of Model/InfoSer.v, with arrays numbered by the worker",
+           "round 4: how a deferred sample set is built (concurrent.futures.Future, hooks) and the comparison of the other model classes "
+           "(QuadraticModel, ConstrainedQuadraticModel, DiscreteQuadraticModel, BinaryPolynomial, Variables: field-by-field observation "
+           "before / after / original-after, independence of the copy) are worker-side Python, with no Coq model behind them"]
 ASSUMPTIONS = ["generated numbers are small dyadics, exactly representable in every dtype used",
                "labels after a round trip are compared with Python dict semantics (a float label equal to its own position is handed back by Variables as that int), but the emitted variable_labels must carry ints for integer labels and floats for float labels, nested ones included; label pools contain integers beyond 2^53 so that a float detour changes the value",
                "object-dtype BQMs hold Python floats or, half of the time, Python ints for integral biases and offsets"]
-PARTIAL = []
+PARTIAL = ["pickle of QuadraticModel / ConstrainedQuadraticModel / DiscreteQuadraticModel, copy.copy of a CQM and deepcopy of a DQM are not offered by "
+           "dimod (TypeError from the extension types): these routes are not generated; the property text names BQMs and sample sets only"]
